@@ -300,7 +300,7 @@ pub fn rounding_boundaries(f: IntFmt, p: u32, seed: u64) -> Vec<i128> {
             while k < sh - 1 {
                 offs.push(1i128 << k);
                 offs.push(-(1i128 << k));
-                k += 3;
+                k += 1;
             }
             if sh >= 2 {
                 offs.push((1i128 << (sh - 1)) - 1);
